@@ -38,7 +38,7 @@ static uint64_t fingerprint(const OpResult& o, std::string* text = nullptr)
 
 static PlanOp gen_any_op(Rng& rng, bool thorough)
 {
-    std::vector<std::string> pk = keys_for({ "G1", "G2", "G3", "G4", "G5", "G6", "G7", "G8", "G9", "G10", "G11", "G12", "G13", "G14", "G15", "G16", "G17", "G18", "G19", "G20", "G21", "G22", "G23", "T1" });
+    std::vector<std::string> pk = keys_for({ "G1", "G2", "G3", "G4", "G5", "G6", "G7", "G8", "G9", "G10", "G11", "G12", "G13", "G14", "G15", "G16", "G17", "G18", "G19", "G20", "G21", "G22", "G23", "G24", "G25", "T1" });
     std::vector<std::string> rk = regex_keys();
     uint64_t k = rng.below(100);
     PlanOp op;
@@ -98,7 +98,7 @@ static Plan gen_c15_cold(uint64_t seed, int64_t index)
     Plan p;
     p.seed = seed; p.index = index; p.property = "C15"; p.mode = "cold_start";
     p.interleaved_first = true;
-    std::vector<std::string> pk = keys_for({ "G1", "G2", "G3", "G4", "G5", "G6", "G7", "G8", "G9", "G10", "G11", "G12", "G13", "G14", "G15", "G16", "G17", "G18", "G19", "G20", "G21", "G22", "G23", "T1" });
+    std::vector<std::string> pk = keys_for({ "G1", "G2", "G3", "G4", "G5", "G6", "G7", "G8", "G9", "G10", "G11", "G12", "G13", "G14", "G15", "G16", "G17", "G18", "G19", "G20", "G21", "G22", "G23", "G24", "G25", "T1" });
     std::vector<PlanOp> ops;
     for (int k = 0; k < 5; ++k)
     {
